@@ -1233,6 +1233,7 @@ func GetSSRsFromQSR(qsr *QuerySegmentRequest, querySummary *summary.QuerySummary
 	sTime := time.Now()
 	var rawSearchSSRs map[string]*structs.SegmentSearchRequest
 	if writer.IsSegKeyUnrotated(qsr.segKey) {
+		verifhook.At("search.unrotated", "qid", qsr.qid, "segkey", qsr.segKey)
 		rawSearchSSRs = metadata.ExtractUnrotatedSSRFromSearchNode(qsr.sNode, qsr.queryRange,
 			qsr.indexInfo.GetQueryTables(), blocksToRawSearch, querySummary, qsr.qid)
 	} else {
